@@ -1,5 +1,5 @@
 (* Dispatch.v — one Gallina entry point for both evaluators: a protocol line in, a result line out. *)
-From MRS Require Import Model.Base Model.OpsAmount Model.OpsBasic Model.OpsCodec.
+From MRS Require Import Model.Base Model.OpsAddress Model.OpsAmount Model.OpsBasic Model.OpsCodec.
 From Coq Require Import String Ascii.
 Open Scope string_scope.
 
@@ -8,7 +8,8 @@ Definition first_some (fs : list (string -> list string -> option string)) (op :
   fold_left (fun acc f => match acc with Some r => Some r | None => f op args end) fs None.
 
 Definition all_ops : list (string -> list string -> option string) :=
-  [ ops_amount;
+  [ ops_address;
+    ops_amount;
     ops_basic;
     ops_codec ].
 
